@@ -57,11 +57,15 @@ func NewHTML(htmlContent utils.ContentInput, baseUrl string, urlFetcher utils.Ur
 	}
 
 	var out HTML
-	// html.Parse wraps the <html> tag
-	out.Root = (*utils.HTMLNode)(root.FirstChild)
-	if out.Root.Type == html.DoctypeNode {
-		out.Root = (*utils.HTMLNode)(out.Root.NextSibling)
+	// html.Parse wraps the <html> tag, which may come after a doctype and comments
+	rootElement := root.FirstChild
+	for rootElement != nil && rootElement.Type != html.ElementNode {
+		rootElement = rootElement.NextSibling
 	}
+	if rootElement == nil {
+		return nil, fmt.Errorf("invalid html input : no root element")
+	}
+	out.Root = (*utils.HTMLNode)(rootElement)
 	out.Root.Parent = nil
 	out.BaseUrl = utils.FindBaseUrl(root, result.BaseUrl)
 	out.UrlFetcher = urlFetcher
